@@ -4,7 +4,8 @@
     the files sbmodel.ml / sbmodel.mli are written there. *)
 From Coq Require Import Extraction ExtrOcamlBasic.
 From SB Require Import Base.Prelude Gen.Generated Model.Codec Model.Colors Spec.CodecSpec
-  Model.Crc Model.Container Spec.CrcSpec Spec.ContainerSpec Model.Loaders.
+  Model.Crc Model.Container Spec.CrcSpec Spec.ContainerSpec Model.Loaders Model.Rth Spec.RthSpec
+  Base.Num Model.Poly Model.Traj Spec.BezierSpec Spec.TrajSpec.
 
 Extraction Language OCaml.
 
@@ -15,4 +16,9 @@ Extraction "sbmodel.ml"
   (* C04 C05 *)
   crc_update file_crc crc_spec zero_field
   parser_init rewind seek_to_next_block find_first read_current_block read_current_block_ex block_valid
-  init_spec all_records find_spec tail_error body_of load.
+  init_spec all_records find_spec tail_error body_of load
+  (* C11 *)
+  plan_init num_entries get_point evaluate_at encode_plan eval_spec wf_splan
+  (* C01 C07 C08 *)
+  traj_init seek cursor0 position_of velocity_of acceleration_of landing_cursor total_duration_msec segments segments_prefix
+  tol_at final_tol traj_pos encode_traj wf_straj total_ms bezier make_bezier horner deriv scale stretch add_constant QOps.
